@@ -87,6 +87,9 @@ def _handler(case):
             net = p - pr
             if net != bus.pprod - bus.pload:
                 viols.append(("ev.net", f"park net exchange {net} != sum over cars {bus.pprod - bus.pload}"))
+            qM = F(c["qMax"])
+            if bus.qprod > len(park.available_cars) * qM or bus.pprod > len(park.available_cars) * pM or bus.pload > len(park.available_cars) * pM:
+                viols.append(("ev.rating", f"{len(park.available_cars)} cars rated {pM} MW / {qM} MVar each exchange {bus.pprod} MW out, {bus.pload} MW in, {bus.qprod} MVar out"))
             if park.curr_p_charge != bus.pload - bus.pprod:
                 viols.append(("ev.reported-net", f"park reports a net exchange of {park.curr_p_charge} MW (curr_p_charge) but its cars exchanged {bus.pload - bus.pprod} MW in this increment"))
             if not c["v2g"] and park.curr_p_charge < 0:
